@@ -42,6 +42,11 @@ type fakeRedis struct {
 	data map[string]fakeRedisVal
 	sets int
 	gets int
+	// round 4: observation and pacing of the SET commands as the server receives them (both optional).
+	// onSet sees the key / value octets exactly as they arrived on the wire, before the command is applied;
+	// setDelay(n) is slept before the reply to the n-th SET is written (a slow server: the client's set loop lags).
+	onSet    func(k, v []byte, nx bool)
+	setDelay func(n int) time.Duration
 }
 
 type fakeRedisVal struct {
@@ -57,6 +62,13 @@ func newFakeRedis() (*fakeRedis, error) {
 	r := &fakeRedis{l: l, data: map[string]fakeRedisVal{}}
 	go r.serve()
 	return r, nil
+}
+
+// observe installs the SET observer and the SET pacing (see the struct)
+func (r *fakeRedis) observe(onSet func(k, v []byte, nx bool), setDelay func(n int) time.Duration) {
+	r.mu.Lock()
+	r.onSet, r.setDelay = onSet, setDelay
+	r.mu.Unlock()
 }
 
 func (r *fakeRedis) url() string {
@@ -175,6 +187,18 @@ func (r *fakeRedis) conn(c net.Conn) {
 			if bad {
 				bw.WriteString("-ERR syntax error\r\n")
 				break
+			}
+			r.mu.Lock()
+			onSet, setDelay, nth := r.onSet, r.setDelay, r.sets
+			r.mu.Unlock()
+			if onSet != nil {
+				onSet(args[1], args[2], nx)
+			}
+			if setDelay != nil {
+				if d := setDelay(nth); d > 0 {
+					bw.Flush()
+					time.Sleep(d)
+				}
 			}
 			now := time.Now()
 			r.mu.Lock()
